@@ -761,6 +761,17 @@ def json_guard_semantics(ctx, f, kb, scope):
         ctx.ob('RECGUARD-T', 'json/guard-released#%d' % n, okr, short_loc(gt.get('span')),
                'the guard taken here is released on every path from the end of the container\'s rendering to the return: %s' % okr)
     ctx.floor('RECGUARD-T', 'json guards taken by unnamed containers', n, 3)
+    # ... and releasing puts the node back to the table's initial value on every path: a mark left behind by a nested
+    # visit makes the next sibling reference to the same (shared) container look like a cycle
+    ok, det = False, 'release method of the guard not found'
+    if g_release is not None:
+        sets = [(bb, t) for bb, t in g_release.calls() if strip_generics(cname(t)).endswith('Cell::set')]
+        rets_r = [bb for bb in g_release.live_blocks() if g_release.term(bb)['k'] == 'return']
+        zero = [bb for bb, t in sets if len(t['args']) == 2 and const_int(t['args'][1]) == 0]
+        always = bool(zero) and must_pass(g_release, 0, rets_r, zero)
+        ok = len(sets) == len(zero) == 1 and always
+        det = 'release() sets the node state %d time(s), to the initial value 0 at %d of them, on every path to the return: %s' % (len(sets), len(zero), always)
+    ctx.ob('RECGUARD-T', 'json/release-resets-unconditionally', ok, short_loc(g_release.span) if g_release is not None else None, det)
 
 
 _META = {}
